@@ -111,7 +111,8 @@ let dump_all (s : M.state) =
     let r = M.inv_report_of s in
     let b x = if x then "1" else "0" in
     pr "I %s %s %s %s %s %s %s %s %s %s\n" (b r.M.r_points_hdr) (b r.M.r_points_frames) (b r.M.r_frames_hdr) (b r.M.r_frames_stored)
-      (b r.M.r_subframes) (b r.M.r_analogs_hdr) (b r.M.r_analogs_meas) (b r.M.r_analogs_frames) (b r.M.r_label_counts) (b r.M.r_label_order)
+      (b r.M.r_subframes) (b r.M.r_analogs_hdr) (b r.M.r_analogs_meas) (b r.M.r_analogs_frames) (b r.M.r_label_counts) (b r.M.r_label_order);
+    pr "T %s\n" (b (M.mt_b s.M.groups))
   end;
   pr "E\n"
 
